@@ -189,7 +189,7 @@ def zeros( shape, dtype=float, order = 'C'):
         tmp = numpy.zeros((D,P) + tuple(shape) ,dtype = dtype.data.dtype)
         if dtype.data.size:
             tmp*= dtype.data.flatten()[0]
-        return dtype.__class__(tmp)
+        return UTPM(tmp)
 
     elif isinstance(dtype, Function):
         return dtype.pushforward(zeros, [shape, dtype, order])
